@@ -322,6 +322,15 @@ StepDim(P, orc, m, op) ==
   THEN Adv(Def(P, m, op.r, <<KeyOf(m, src)[3][1 + ((Len(KeyOf(m, src)[3]) - 1) \div 3) + idx + 1]>>))
   ELSE StepPure(P, m, op)
 
+(* an operation with regions the machine does not interpret (linalg.generic, streaming regions, ...):
+   one atomic observable operation; its body is not entered *)
+StepRegionOpaque(P, orc, m, op) ==
+  LET m1 == StepOpaque(P, orc, m, op) IN
+  IF m1.status = "run" THEN Goto(m1, op.end + 1) ELSE m1
+
+(* run-time intrinsic: the id of the executing core *)
+StepCoreIdx(P, orc, m, op) == Adv(Def(P, m, op.r, <<orc.core>>))
+
 MStepRaw(P, orc, m) ==
   LET i == m.pc  op == P.ops[i] IN
   IF i > Len(P.ops) THEN [m EXCEPT !.status = "done"]
@@ -342,8 +351,11 @@ MStepRaw(P, orc, m) ==
          [] op.k = "await" -> StepAwait(P, m, op)
          [] op.k = "reset" -> StepReset(P, m, op)
          [] op.k = "asm" -> StepAsm(P, orc, m, op)
+         [] op.k = "call" /\ op.sv[1] = "snax_cluster_core_idx" -> StepCoreIdx(P, orc, m, op)
          [] op.k \in {"call", "eff"} /\ ~(op.k = "call" /\ op.sv[1] \in {"snax_dma_1d_transfer", "snax_dma_2d_transfer"} /\ Len(m.mem) > 0)
+                                  /\ ~(op.k = "call" /\ op.sv[1] = "snax_cluster_core_idx")
               -> StepOpaque(P, orc, m, op)
+         [] op.k = "region" -> StepRegionOpaque(P, orc, m, op)
          [] op.k = "pure" -> StepPure(P, m, op)
          [] op.k = "alloc" -> StepAlloc(P, m, op)
          [] op.k = "subview" -> StepSubview(P, m, op)
